@@ -37,6 +37,8 @@ class Sample:
     cluster_top: int = 0
     fine: int = 0
     fines: Optional[List[int]] = None  # low bytes of the five loop points (default: fine, 1, 2, 3, 4)
+    after: Optional[int] = None  # index of the sample whose data file (cluster chain) this one continues: same FAT
+    # entry, its own clusters appended to that chain, `cluster_top` = the clusters that lie before them (S140)
 
     def window(self) -> Tuple[int, int]:
         """(first word, number of words) selected by the loop mode."""
@@ -133,6 +135,21 @@ def serialize(disc: Disc, rng, shapes=("contiguous", "reversed", "random", "head
                 secs = secs[1:] + secs[:1]
         for c in secs:
             free.remove(c)
+        top = s.cluster_top
+        roots = info.setdefault("_root", {})
+        files = info.setdefault("_file", {})
+        if s.after is not None and s.after in roots:
+            # several samples in one data file: this sample's clusters are appended to the file `after` lives in
+            root = roots[s.after]
+            prev = files[root]
+            top = len(prev) + s.cluster_top
+            secs = prev + secs
+            total = len(secs)
+            info["shared_files"] = info.get("shared_files", 0) + 1
+        else:
+            root = si
+        roots[si] = root
+        files[root] = secs
         for a, b in zip(secs, secs[1:]):
             fat[a] = b
         fat[secs[-1]] = 0xFFF8
@@ -143,14 +160,14 @@ def serialize(disc: Disc, rng, shapes=("contiguous", "reversed", "random", "head
         if s_n > 0 and (2 * (s_start + s_n)) % CLUSTER == 0:
             info["exact_fill"] += 1
         padded = data + bytes(n * CLUSTER - len(data))
-        for k, c in enumerate(secs[s.cluster_top :]):
+        for k, c in enumerate(secs[top:]):
             img[DATA_FAT_OFF + c * CLUSTER : DATA_FAT_OFF + (c + 1) * CLUSTER] = padded[k * CLUSTER : (k + 1) * CLUSTER]
         img[DIR["samp"] + 32 * si : DIR["samp"] + 32 * si + 32] = dir_entry(s.name, "samp", secs[0], total, v2)
         se = len(s.words) - 1 if s.sus_end is None else s.sus_end
         re_ = len(s.words) - 1 if s.rel_end is None else s.rel_end
         fn = s.fines if s.fines is not None else [s.fine, 1, 2, 3, 4]
         pts = [(s.start << 8) | fn[0], (s.sus_start << 8) | fn[1], (se << 8) | fn[2], (s.rel_start << 8) | fn[3], (re_ << 8) | fn[4]]
-        par = name16(s.name) + struct.pack("<5I", *[p & 0xFFFFFFFF for p in pts]) + bytes([s.mode, 1, 2, 3]) + struct.pack("<HH", s.cluster_top, total) + bytes([(0 << 4) | s.freq, s.key, 0, 0])
+        par = name16(s.name) + struct.pack("<5I", *[p & 0xFFFFFFFF for p in pts]) + bytes([s.mode, 1, 2, 3]) + struct.pack("<HH", top, total) + bytes([(0 << 4) | s.freq, s.key, 0, 0])
         assert len(par) == 48
         o = PAR["samp"][0] + 48 * si
         img[o : o + 48] = par
@@ -255,6 +272,8 @@ def random_disc(rng) -> Disc:
         if rng.random() < 0.5:
             se = re_ = n - 1
         samples[i] = Sample(f"{NAMES[i]} {i}", w, start, rng.randint(0, n - 1), se, rng.randint(0, n - 1), re_, mode, rng.randrange(6), rng.randint(21, 108), rng.choice([0, 0, 1, 2]), rng.randrange(256))
+        if i >= 1 and rng.random() < 0.3:
+            samples[i].after = rng.randrange(i)  # lives in the data file of an earlier sample (S140)
     npart = rng.randint(1, 4)
     partials = {}
     pool = list(samples)
